@@ -289,7 +289,7 @@ def gen_attr(shape, have_mask, only_leaves, form, lo, hi, draws, elems=None) -> 
             feats[i].add_attribute(Attribute('cost', None, 'preset', None))
         feats[i].add_attribute(Attribute('other%d' % i, None, i, None))
     before = R.snapshot(m)
-    elements = list(elems) if elems is not None else ['x', 7, 2.5]
+    elements = list(elems) if elems is not None else ['x', 0, 2.5, '', False, 7]      # listed elements may be falsy: 0, '', False are values like any other
     if form == 'elements':
         dom = Domain(None, elements)
     elif form == 'int':
@@ -401,6 +401,8 @@ def batch_gen_native(max_n, seed, count):
         args = [shape, [rnd.random() < 0.3 for _ in range(n)], rnd.random() < 0.5,
                 rnd.choice(['elements', 'int', 'int2', 'float', 'mixed', 'empty']), lo, lo + rnd.randint(0, 6),
                 [rnd.randint(0, 50) for _ in range(5)]]
+        if rnd.random() < 0.5:
+            args.append(rnd.choice([[0], [False, True], ['', 'a'], [0.0, 1.5], [0, 1, 2], [False], ['x', 0, '', False, 0.0], [None, 0]]))
         res['instances'] += 1
         res['native_runs'] += 1
         res['nontrivial'] += 1
